@@ -6,5 +6,6 @@ cd "$(dirname "$0")/.."
 /venv/bin/python harness/extract.py
 cd lean
 lake build PysparklingVerif driver \
+  PysparklingVerif.Extracted.EquivC04 PysparklingVerif.Extracted.EquivC05 PysparklingVerif.Extracted.EquivC10 PysparklingVerif.Extracted.EquivC11 \
   PysparklingVerif.Extracted.EquivC07 PysparklingVerif.Extracted.EquivC14 \
   PysparklingVerif.Extracted.EquivC16 PysparklingVerif.Extracted.EquivC17 PysparklingVerif.Extracted.EquivC18
